@@ -40,9 +40,19 @@ theorem inv_waitPass {c : Cfg} {s : State} {t f : Nat} (h : Inv c s) (hpc : s.pc
   unfold setPc
   inv_step h
 
-theorem inv_step {c : Cfg} {s : State} (h : Inv c s) (t k : Nat) (hen : enabled s t = true) :
-    Inv c (step c s t k).1 := by
-  unfold step
+set_option maxHeartbeats 4000000 in
+theorem inv_lockWait {c : Cfg} {s : State} (f : Nat → Bool) (h : Inv c s) : Inv c { s with lockWait := f } := by
+  inv_step h
+
+/-- `enabled` for a thread that is not about to lock the mutex -/
+theorem enabled_noLock {s : State} {t : Nat} (hl : (s.pc t).wantsLock = false) : enabled s t = enabledPc s t := by
+  unfold enabled
+  simp [hl]
+
+theorem inv_stepPc {c : Cfg} {s : State} (h : Inv c s) (t k : Nat)
+    (hen : (s.pc t).wantsLock = false → enabled s t = true)
+    (hmx : (s.pc t).wantsLock = true → s.mx = none) : Inv c (stepPc c s t k).1 := by
+  unfold stepPc
   split
   · -- idle
     rename_i hpc
@@ -55,25 +65,34 @@ theorem inv_step {c : Cfg} {s : State} (h : Inv c s) (t k : Nat) (hen : enabled 
       · rename_i hr; exact inv_toAfterJob h hpc hr
       · rename_i hr; exact absurd hr (h.t_noB t)
     · exact inv_submit h hpc
-    · exact inv_stopCS h hpc
+    · exact inv_stopBegin h hpc
     · split
       · exact inv_destroySkip h
-      · exact inv_stopCS h hpc
+      · exact inv_stopBegin h hpc
     · split
       · exact inv_waitSkip h
       · exact inv_waitBlock h hpc
     · exact inv_setFlag h
     · exact inv_waitSkip h
+  · rename_i j hpc; exact inv_enqCS h hpc (hmx (by rw [hpc]; rfl))
   · rename_i j acc hpc; exact inv_afterEnq h hpc
+  · rename_i isD hpc; exact inv_stopCS h hpc (hmx (by rw [hpc]; rfl))
   · rename_i f hpc; exact inv_waitPass h hpc
   · rename_i hpc; exact inv_stopJoin h hpc
-  · rename_i hpc; exact inv_joinBlocked h hpc hen
+  · rename_i hpc
+    have hen' := hen (by rw [hpc]; rfl)
+    exact inv_joinBlocked h hpc hen'
   · rename_i hpc; exact inv_stopDrop h hpc
+  · rename_i hpc; exact inv_wRelock h hpc (hmx (by rw [hpc]; rfl))
   · rename_i hpc; exact inv_wLoop h hpc
+  · rename_i hpc; exact inv_wCvEnter h hpc
   · rename_i hpc; exact inv_wCvCheck h hpc
   · rename_i hpc
     have hw : s.woken t = true := by
-      unfold enabled at hen; simp only [hpc] at hen; exact hen
+      have hen' := hen (by rw [hpc]; rfl)
+      rw [enabled_noLock (by rw [hpc]; rfl)] at hen'
+      unfold enabledPc at hen'
+      simp only [hpc] at hen'; exact hen'
     exact inv_wCvBlocked h hpc hw
   · rename_i j hpc; exact inv_wRun h hpc
   · rename_i hpc; exact inv_wFlush h hpc
@@ -88,6 +107,26 @@ theorem inv_step {c : Cfg} {s : State} (h : Inv c s) (t k : Nat) (hen : enabled 
   · rename_i hpc; exact inv_fin h (Or.inl hpc)
   · exact h
   · exact h
+
+theorem inv_step {c : Cfg} {s : State} (h : Inv c s) (t k : Nat) (hen : enabled s t = true) :
+    Inv c (step c s t k).1 := by
+  unfold step
+  split
+  · exact inv_lockWait _ h
+  · rename_i hnl
+    simp only [Bool.and_eq_true, not_and, Bool.not_eq_true] at hnl
+    apply inv_stepPc (inv_lockWait _ h)
+    · intro hl
+      have hl' : (s.pc t).wantsLock = false := hl
+      have := enabled_noLock hl'
+      rw [this] at hen
+      rw [enabled_noLock (s := { s with lockWait := upd s.lockWait t false }) hl]
+      exact hen
+    · intro hl
+      have := hnl hl
+      cases hm : s.mx with
+      | none => rfl
+      | some u => rw [hm] at this; simp at this
 
 theorem inv_sstep {c : Cfg} {s : State} (h : Inv c s) (tk : Nat × Nat) : Inv c (sstep c s tk) := by
   unfold sstep
